@@ -2,7 +2,7 @@
 import ast
 
 from engine.index import AnalysisError
-from engine.helpers import (resolver, facts_at, lit_cmp, describe_facts, unparse, walk_no_nested, returns, deref,
+from engine.helpers import (resolver, facts_at, filter_facts_at, lit_cmp, describe_facts, unparse, walk_no_nested, returns, deref,
                             body_only_aborts, calls_to, attr_writers, reaching_def)
 from engine.lin import clause_implies
 from engine.types import CallGraph, bind_args
@@ -125,7 +125,7 @@ def c09_2(ctx):
         ctx.refute('order:resolve-once', pl.site(), 'parse_line substitutes symbols exactly once per line', f'{len(rs_calls)} calls to resolve_symbols')
         return
     rc = rs_calls[0]
-    cl = facts_at(ctx, pl, rc, res)
+    cl = filter_facts_at(ctx, pl, rc, res)
     ok = any(len(c) == 1 and next(iter(c))[0] == 'call' and "startswith('#')" in next(iter(c))[1] and next(iter(c))[-1] is False for c in cl)
     ctx.check(ok and len(cl) == 1, 'order:not-on-directives', pl.site(rc), 'symbols are substituted on every non-directive line and on no directive line',
               describe_facts(cl))
